@@ -334,6 +334,80 @@ func runC11(r *Run, p *Prog) {
 				"with both "+a+" and "+b+" set, the marshal, the write or a success return is reachable: the forbidden combination goes out on the wire", witnessPos(p, w)...)
 		}
 	})
+	// ---- N1 converse: nothing else is refused. For every combination of More/Oneway/Upgrade that the protocol allows,
+	// no error return in front of the marshal is reachable on paths consistent with that combination
+	r.Guard("N1", func() {
+		names := []string{"More", "Oneway", "Upgrade"}
+		for mask := 0; mask < 8; mask++ {
+			set := map[string]bool{"More": mask&1 != 0, "Oneway": mask&2 != 0, "Upgrade": mask&4 != 0}
+			if set["More"] && (set["Oneway"] || set["Upgrade"]) {
+				continue
+			}
+			var on []string
+			for _, nm := range names {
+				if set[nm] {
+					on = append(on, nm)
+				}
+			}
+			reach, w := reachInstr(send, nil, func(in ssa.Instruction) bool {
+				ret, ok := in.(*ssa.Return)
+				if !ok || len(ret.Results) == 0 {
+					return false
+				}
+				if cm.Marshal.Block() == ret.Block() || cm.Marshal.Block().Dominates(ret.Block()) {
+					return false // after the marshal: encoder and I/O errors are not refusals of the flags
+				}
+				k, isK := ret.Results[len(ret.Results)-1].(*ssa.Const)
+				return !(isK && k.IsNil())
+			}, func(in ssa.Instruction) bool { return in == ssa.Instruction(cm.Marshal) }, func(x, y *ssa.BasicBlock) bool {
+				fs := T.edgeFactsOn(x, y)
+				for _, nm := range names {
+					if flagFact(fs, nm, !set[nm]) {
+						return true // this edge needs the flag to be the other way round
+					}
+				}
+				return false
+			})
+			what := "no flag"
+			if len(on) > 0 {
+				what = strings.Join(on, "+")
+			}
+			r.Ob("N1", shortName(send), "a call with "+what+" is not refused", send.Pos(), !reach,
+				"an error return in front of the marshal is reachable for a call with "+what+" (of More/Oneway/Upgrade): a combination the protocol allows is refused, or the flag tests are not `flags&X != 0`", witnessPos(p, w)...)
+		}
+	})
+	// ---- N2 (wrappers): the convenience functions of the package request exactly the flags their contract says: Call
+	// and everything built on it none, Upgrade the Upgrade flag; a flags parameter of the wrapper is passed through
+	r.Guard("N2", func() {
+		n := 0
+		for _, f := range p.FuncsOf(pkgVarlink) {
+			for _, cs := range callsIn(f, false) {
+				if staticTarget(cs.Common) != cm.SendBuilt || f == cm.SendBuilt {
+					continue
+				}
+				a := cs.Common.Args
+				fl := a[len(a)-1]
+				n++
+				want := int64(0)
+				top := f
+				for top.Parent() != nil {
+					top = top.Parent()
+				}
+				if top.Name() == "Upgrade" {
+					want = fc["Upgrade"]
+				}
+				okf := false
+				if k, isK := fl.(*ssa.Const); isK && k.Value != nil {
+					okf = k.Int64() == want
+				} else if _, isPar := fl.(*ssa.Parameter); isPar {
+					okf = true
+				}
+				r.Ob("N2", shortName(f), fmt.Sprintf("%s requests the flags of its contract (%d)", shortName(top), want), cs.Instr.Pos(), okf,
+					"the call is sent with flags "+strip(T.T(fl))+": a plain call that sets more/oneway/upgrade gets no reply, several replies, or a connection switched to another protocol")
+			}
+		}
+		r.Stat("N2_wrapper_calls", n)
+	})
 	// ---- N2
 	r.Guard("N2", func() {
 		st := cm.CallLit.Type().(*types.Pointer).Elem().Underlying().(*types.Struct)
